@@ -80,5 +80,9 @@ static inline void QPointer_QThread_clear(QPointer_QThread *p) { p->p = NULL; }
 static inline BOOL QThread_isRunning(QThread *t) { return t->running != 0; }
 static inline void QThread_msleep__unsignedlong(unsigned long ms) { }
 static inline void *QThread_currentThreadId(void) { return (void *)0; }
+/* QThread::currentThread(): the caller runs on ANY thread -- possibly the handler's own worker thread (a sink that logs) */
+QThread g_other_thread_obj;
+int nondet_int(void);
+static inline QThread *QThread_currentThread(void) { return nondet_int() ? &g_thread_obj : &g_other_thread_obj; }
 unsigned long long g_quits, g_terminates; int g_quit_ok;
 #endif
